@@ -44,10 +44,14 @@ def build(case):
                 rest = toks[1:]
             for k in range(0, len(rest), wrap):
                 rows.append(rest[k:k + wrap])
-    spec = lastext.simple_spec(curves, rows, wrap="YES" if wrap else "NO",
+    dlm = case.get("dlm")
+    spec = lastext.simple_spec(curves, rows, wrap="YES" if wrap else "NO", dlm=dlm,
                                nl=case.get("nl", "\n"), final_nl=case.get("final_nl", True))
     a = spec["sections"][-1]
     a["ncols"] = c
+    if dlm in ("COMMA", "TAB"):
+        for ln in a["lines"]:
+            ln["seps"] = ["," if dlm == "COMMA" else "\t"] * max(0, len(ln["toks"]) - 1)
     # light noise: blank / comment lines at given positions of the data section
     for pos, kind in sorted(case.get("noise", []), reverse=True):
         ln = {"t": "blank", "text": ""} if kind == "b" else {"t": "comment", "text": "# note"}
@@ -61,6 +65,7 @@ def oracle(case):
     wrap = case.get("wrap", 0)
     spec = build(case)
     out.sample = dict(case=case, text=spec_summary(spec, 400))
+    out.cls("dlm-" + str(case.get("dlm") or "SPACE"))
     out.cls("wrapped" if wrap else "unwrapped", "engine-" + case["engine"],
             "d<c" if d < c else "d>c" if d > c else "d=c", "sign-" + case.get("sign", "pos"))
     if case.get("noise"):
@@ -94,6 +99,9 @@ def grid(tier):
                 for r in range(1, rmax + 1):
                     for sign in ("pos", "neg"):
                         yield dict(d=d, c=c, r=r, engine=engine, sign=sign)
+                        if r <= 3 and c <= 5 and d <= 5:
+                            for dlm in ("COMMA", "TAB"):
+                                yield dict(d=d, c=c, r=r, engine=engine, sign=sign, dlm=dlm)
 
 
 def wrapped_grid(tier):
@@ -124,6 +132,7 @@ def big_cases(draw):
         case["index_alone"] = draw(st.booleans()) and c > 1
     else:
         case["d"] = draw(st.one_of(st.just(c), st.integers(0, 45)))
+        case["dlm"] = draw(st.sampled_from([None, None, "COMMA", "TAB"]))
     nlines = r if not wrapped else r * (c // case["wrap"] + 2)
     case["noise"] = draw(st.lists(st.tuples(st.integers(0, nlines), st.sampled_from("bc")), max_size=3))
     return case
